@@ -142,11 +142,16 @@ def setBioavailability (g : CGraph ε) (c : Comp ε) (e : ε) : Except Err (CGra
 def setInput (g : CGraph ε) (c : Comp ε) (e : ε) : Except Err (CGraph ε) :=
   relabelE g [(.comp c, .comp { c with input := e })]
 
-/-- `CompartmentalSystem.subs`: the substituted rates and compartments are supplied (they
-    are computed by sympy/symengine); the model is the graph surgery.  `m` lists
-    `comp ↦ comp.subs(σ)` in the iteration order of the set `_comps(self._g)`. -/
-def subsGraph (g : CGraph ε) (rate : ε → ε) (m : List (Node ε × Node ε)) : Except Err (CGraph ε) :=
-  relabelE (g.mapRates rate) m
+/-- the mapping of `CompartmentalSystem.subs`: `{comp: comp.subs(σ) for comp in _comps(self._g)}`;
+    `_comps` is the list of compartments IN NODE ORDER (since /repo 459172f; it was a set before) -/
+def subsMapping (g : CGraph ε) (f : Node ε → Node ε) : List (Node ε × Node ε) :=
+  (comps g).map (fun n => (n, f n))
+
+/-- `CompartmentalSystem.subs`: the substituted rates (`rate`) and compartments (`f`) are supplied
+    (they are computed by sympy/symengine); the model is the graph surgery: every rate replaced, then
+    `relabel_nodes(cb._g, mapping, copy=False)` with the mapping in node order. -/
+def subsGraph (g : CGraph ε) (rate : ε → ε) (f : Node ε → Node ε) : Except Err (CGraph ε) :=
+  relabelE (g.mapRates rate) (subsMapping g f)
 
 /-! #### queries of `CompartmentalSystem` -/
 
@@ -256,7 +261,7 @@ inductive Op (ε : Type) where
   | setLagTime (c : Comp ε) (e : ε)
   | setBioavailability (c : Comp ε) (e : ε)
   | setInput (c : Comp ε) (e : ε)
-  | subs (rates : List (ε × ε)) (m : List (Node ε × Node ε))
+  | subs (rates : List (ε × ε)) (table : List (Node ε × Node ε))
   | roundtrip
 
 def Op.apply (g : CGraph ε) : Op ε → Except Err (CGraph ε)
@@ -271,7 +276,7 @@ def Op.apply (g : CGraph ε) : Op ε → Except Err (CGraph ε)
   | .setLagTime c e => C05.setLagTime g c e
   | .setBioavailability c e => C05.setBioavailability g c e
   | .setInput c e => C05.setInput g c e
-  | .subs rates m => subsGraph g (fun e => (alGet? rates e).getD e) m
+  | .subs rates table => subsGraph g (fun e => (alGet? rates e).getD e) (fun n => (alGet? table n).getD n)
   | .roundtrip => .ok (fromDict (toDict g))
 
 /-- a refused operation leaves the builder unchanged -/
